@@ -68,6 +68,21 @@ def r17a(ctx):
         ctx.violation("R17a", f.file, "make_distinct", w, "both refined",
                       f"only {tcalls} are tightened in the separation loop; an interval that is never refined can keep the "
                       f"loop from ever exiting, or leaves the pair unseparated")
+    # every argument enters the tree: the loop that fills it adds each one unconditionally (a point that is left out is
+    # invisible to the overlap queries, so a wide interval containing it is declared distinct)
+    fills = [l for l in walk_no_nested(f.node) if isinstance(l, ast.For) and l.lineno < w.lineno
+             and dotted(l.iter) in {a.arg for a in ([f.node.args.vararg] if f.node.args.vararg else [])} | set(func_params(f.node))]
+    for l in fills:
+        fadds = [c for c in ast.walk(l) if isinstance(c, ast.Call) and isinstance(c.func, ast.Attribute) and c.func.attr == "add"
+                 and dotted(c.func.value) == treev]
+        conds = [ast.unparse(t) for c in fadds for t, pol in flatten_conditions(dominating_conditions(c, stop=l))]
+        if fadds and not conds:
+            ctx.proved("R17a", f.file, "make_distinct", fadds[0], "every argument enters the tree", "the fill loop adds each argument unconditionally")
+        else:
+            ctx.violation("R17a", f.file, "make_distinct", (fadds or [l])[0], "every argument enters the tree",
+                          f"an argument reaches the interval tree only under {conds or 'no add at all'}: an item left out (e.g. one that is "
+                          f"already single-valued) is invisible to the overlap queries, so `make_distinct([0,10], [5,5])` returns with "
+                          f"[0,10] still containing 5")
     # re-insertion only while overlapping
     adds = [c for c in walk_no_nested(f.node) if isinstance(c, ast.Call) and isinstance(c.func, ast.Attribute)
             and c.func.attr == "add" and dotted(c.func.value) == treev and c.lineno > w.lineno]
@@ -246,7 +261,20 @@ def r17b(ctx):
     # bounds(): the lower bound scans live nodes only and never exceeds the best upper bound
     b = m.method(q, "bounds")
     live = pat.first("if not N.deleted:\n    L = min(N.key.lower_bound, L)", b.node)[1]
-    capped = live is not None and bool(pat.find_expr(f"Range(min({live['L']}, self.best_match.bounds().upper_bound), self.best_match.bounds().upper_bound)", b.node))
+    capped = False
+    if live is not None:
+        from ..astx import inline_locals
+        for r_ in walk_no_nested(b.node):
+            if isinstance(r_, ast.Return) and isinstance(r_.value, ast.Call) and call_name(r_.value) == "Range" and len(r_.value.args) == 2:
+                lo_, hi_ = r_.value.args
+                hi_t = ast.unparse(inline_locals(b.node, hi_)).replace(" ", "")
+                lo_t = ast.unparse(lo_).replace(" ", "")
+                lo_full = ast.unparse(inline_locals(b.node, lo_)).replace(" ", "") if not (isinstance(lo_, ast.Call) and call_name(lo_) == "min") else None
+                # [min(L, hi), hi] with hi = the best candidate's upper bound (possibly capped by the caller's initial upper bound)
+                if "self.best_match.bounds().upper_bound" in hi_t and isinstance(lo_, ast.Call) and call_name(lo_) == "min" \
+                        and any(dotted(a_) == live["L"] for a_ in lo_.args) \
+                        and any(ast.unparse(inline_locals(b.node, a_)).replace(" ", "") == hi_t for a_ in lo_.args):
+                    capped = True
     if live is not None and capped:
         ctx.proved("R17b", fl, "IterativeTighteningSearch.bounds", b.node, "search bounds",
                    "lower bound = min over live candidates' lower bounds, capped by the best upper bound")
